@@ -618,15 +618,53 @@ class SymBytes:
         return all(core.cur().fork(a == b) if not (isinstance(a, int) and isinstance(b, int)) else a == b
                    for a, b in zip(self.items, oi))
 
+    def startswith(self, prefix):
+        if len(prefix) > len(self.items):
+            return False
+        for a, b in zip(self.items, list(prefix)):
+            if isinstance(a, int):
+                if a != b:
+                    return False
+            elif not core.cur().fork(a == b):
+                return False
+        return True
+
     def decode(self, encoding="utf-8", errors="strict"):
+        encoding = lower(encoding)
+        if not isinstance(encoding, str):
+            raise ProxyLeak("decode with a symbolic encoding name")
         enc = encoding.lower().replace("-", "").replace("_", "")
         p = core.cur()
+        if all(isinstance(b, int) for b in self.items):
+            return bytes(self.items).decode(encoding, errors)
+        if any(not isinstance(b, int) for b in self.items) and enc not in ("ascii", "usascii", "latin1", "iso88591"):
+            # symbolic bytes must be ASCII: then they decode to themselves in every ASCII-compatible codec and cannot
+            # be part of a multi-byte sequence; the concrete runs between them are decoded by the real codec
+            import codecs as _codecs
+            _codecs.lookup(encoding)
+            out = []
+            run = []
+            for b in self.items:
+                if isinstance(b, int):
+                    run.append(b)
+                    continue
+                if not p.fork(z3.And(b >= 0, b < 128)):
+                    raise ProxyLeak("non-ASCII symbolic byte in a multi-byte decode")
+                if run:
+                    out.extend(bytes(run).decode(encoding, errors))
+                    run = []
+                out.append(SymChar(b))
+            if run:
+                out.extend(bytes(run).decode(encoding, errors))
+            return SymStr(out)
         if enc in ("ascii", "usascii", "latin1", "iso88591"):
             lim = 128 if enc in ("ascii", "usascii") else 256
             out = []
             for i, b in enumerate(self.items):
                 if isinstance(b, int):
                     if b >= lim:
+                        if errors == "ignore":
+                            continue
                         raise UnicodeDecodeError(enc, bytes([b]), 0, 1, "ordinal not in range")
                     out.append(chr(b))
                 else:
